@@ -1,5 +1,8 @@
 import Props.C10
+import Props.C06
 import Lemmas.Lookup
+import Lemmas.DefFrame
+import Lemmas.PermEquiv
 /-!
 # C11 — required options are enforced before any command runs; help bypasses them
 -/
@@ -111,5 +114,66 @@ example :
     (match dispatch Demo.ext (parseUser Demo.ext P [b "cmd", b "--he"]).st [] with
       | .helpCalled _ => true | _ => false) = true := by
   decide
+
+/-! ## end to end: definition script, command line, `Parse` / `Dispatch` -/
+
+/-- the node records after a whole parse are the declared ones -/
+theorem parseArgs_node (mode : Mode) (P : Prog) (args : List Str) (n : Nat) :
+    (parseArgs ext mode P args).P.node n = P.node n := by
+  unfold parseArgs
+  rw [finish_nodes]
+  exact (run_shape ext mode P args).1 n
+
+/-- **A required option that is not supplied blocks every command, end to end.**  Program: any accepted
+definition script in which the option is declared with `Required(msg)`; command line: anything that parses, does
+not mention the option (by name, alias or abbreviation, at any level), does not ask for help, and ends at a
+level whose table holds the option (the level it was declared at, or a command that inherited it).  Then
+`Dispatch` invokes no function: it returns a missing-required error (`checkRequired_names`: naming a required
+option that was not supplied, with its custom message) — and when the final level is the root, `Parse` itself
+already returns that error and no remaining list. -/
+theorem required_enforced_end_to_end (env : Env) (root : Str) (pre post : List DefOp) (hd : Nat) (kind : Kind)
+    (name : Str) (dflt : Val) (dstr : Str) (min max : Int) (msg : Option Str) (st : BState)
+    (h : buildB ext env root (pre ++ [.opt hd kind name dflt dstr min max [.required msg]] ++ post) = .ok st) :
+    ∃ mid, buildB ext env root pre = .ok mid ∧
+      ∀ (args : List Str) (key : Str),
+        let s := parseArgs ext (st.P.node 0).mode st.P args
+        s.err = none →
+        lookup key (st.P.node s.cur).opts = some mid.P.opts.length →
+        ¬ Mentioned (st.P.node 0).mode st.P args mid.P.opts.length →
+        helpRequested s.P s.cur = false →
+        (∀ rem, ∃ e, dispatch ext s rem = .missingRequired e) ∧
+        ((s.P.node s.cur).parent = none →
+          ∃ e, (parseUser ext st.P args).err = some e ∧ (parseUser ext st.P args).remaining = none ∧
+            checkRequired s.P s.cur = some e) := by
+  obtain ⟨mid, h1, h2⟩ := defined_record_final ext env root pre post hd kind name dflt dstr min max [.required msg] st h
+  refine ⟨mid, h1, ?_⟩
+  intro args key s he hl hnm hh
+  have hrec : s.P.opt mid.P.opts.length = (freshOpt kind name dflt dstr min max |> fun o =>
+      { o with required := true, requiredMsg := msg.getD [] }) := by
+    show (parseArgs ext (st.P.node 0).mode st.P args).P.opt _ = _
+    rw [unmentioned_keeps_default ext (st.P.node 0).mode st.P args _ hnm, h2]
+    rfl
+  have hnode : s.P.node s.cur = st.P.node s.cur := parseArgs_node ext _ st.P args s.cur
+  have hinv := buildB_inv ext env root _ st h
+  have hnd : ((s.P.node s.cur).opts.map (·.1)).Nodup := by rw [hnode]; exact hinv.prog.keys s.cur
+  have hmiss : missingRequired s.P s.cur = true := by
+    unfold missingRequired
+    rw [List.any_eq_true]
+    refine ⟨(key, mid.P.opts.length), ?_, ?_⟩
+    · rw [hnode]; exact lookup_mem _ _ _ hl
+    · simp only [hrec]; simp [freshOpt]
+  have hcr : ∃ e, checkRequired s.P s.cur = some e := by
+    cases hc : checkRequired s.P s.cur with
+    | some e => exact ⟨e, rfl⟩
+    | none =>
+      have := (checkRequired_none_iff s.P s.cur hnd).mp hc
+      rw [hmiss] at this; cases this
+  obtain ⟨e, hce⟩ := hcr
+  refine ⟨fun rem => ⟨e, required_blocks ext s rem e hh hce⟩, fun hroot => ?_⟩
+  have hreq : requiredAtParse s = some e := by
+    unfold requiredAtParse
+    simp [hroot, hh, hce]
+  have := required_blocks_parse ext st.P args e he hreq
+  exact ⟨e, this.1, this.2, hce⟩
 
 end GoModel
